@@ -322,6 +322,88 @@ pub fn run(c: &[String]) -> String {
             builtin(proc_, args)
         }
         "13" => ratio_case(c),
+        "14" => {
+            if c.len() < 3 {
+                return "BADCASE".into();
+            }
+            let k: usize = c[2].parse().unwrap_or(0);
+            let mut i = 3;
+            let mut all = vec![];
+            while i < c.len() {
+                match decode_num(c, &mut i) {
+                    Some(a) => all.push(a),
+                    None => return "BADCASE".into(),
+                }
+            }
+            if k > all.len() {
+                return "BADCASE".into();
+            }
+            let mut o = String::from("ALL");
+            for a in &all[..k] {
+                for b in &all[k..] {
+                    o.push(';');
+                    match catch_unwind(AssertUnwindSafe(|| binary(&c[1], a, b))) {
+                        Ok(s) => o.push_str(&s),
+                        Err(_) => o.push_str("PANIC"),
+                    }
+                }
+            }
+            o
+        }
+        "15" => {
+            let mut i = 1;
+            let a = match decode_num(c, &mut i) {
+                Some(a) => a,
+                None => return "BADCASE".into(),
+            };
+            let b = match decode_num(c, &mut i) {
+                Some(b) if i == c.len() => b,
+                _ => return "BADCASE".into(),
+            };
+            let mut o = String::from("CMP");
+            for op in ["7", "8", "9", "10", "11", "12"] {
+                o.push(';');
+                match catch_unwind(AssertUnwindSafe(|| binary(op, &a, &b))) {
+                    Ok(s) => o.push_str(&s),
+                    Err(_) => o.push_str("PANIC"),
+                }
+            }
+            o
+        }
+        "16" | "17" => {
+            let mut i = 1;
+            let mut args = vec![];
+            while i < c.len() {
+                match decode_arg(c, &mut i) {
+                    Some(a) => args.push(a),
+                    None => return "BADCASE".into(),
+                }
+            }
+            let clone = |a: &Arg| match a {
+                Arg::Num(n) => Arg::Num(n.clone()),
+                Arg::Other => Arg::Other,
+            };
+            if c[0] == "16" {
+                let mut o = String::from("VM");
+                for proc_ in [4, 5, 6, 7, 8, 9, 10] {
+                    o.push(';');
+                    o.push_str(&builtin(proc_, args.iter().map(clone).collect()));
+                }
+                o
+            } else {
+                if args.len() != 3 {
+                    return "BADCASE".into();
+                }
+                let mut o = String::from("TRI");
+                for proc_ in [4, 5, 6, 7, 8] {
+                    for idx in [vec![0, 1], vec![1, 2], vec![0, 2], vec![0, 1, 2]] {
+                        o.push(';');
+                        o.push_str(&builtin(proc_, idx.iter().map(|&j| clone(&args[j])).collect()));
+                    }
+                }
+                o
+            }
+        }
         _ => "BADCASE".into(),
     }
 }
